@@ -21,7 +21,9 @@ func (g *GateFS) Before(c *vos.Call) {
 		return
 	}
 	base := filepath.Base(c.Path)
-	if i := strings.Index(base, ".tmp"); i >= 0 {
+	if a := vos.Alias(base); a != base {
+		base = a // a temporary made by CreateTemp: its pattern without the random part
+	} else if i := strings.Index(base, ".tmp"); i >= 0 {
 		base = base[:i+4] // temporary names carry random digits
 	}
 	sched.Gate(&sched.Op{Kind: "fs", Label: "fs." + c.Op + "(" + base + ")"})
